@@ -67,7 +67,7 @@ fn ids_s(l: &Option<Vec<Vec<u8>>>) -> String { ids_su(l, &[]) }
 fn ids_su(l: &Option<Vec<Vec<u8>>>, unk: &[usize]) -> String { match l { None => "N".into(), Some(v) if v.is_empty() => "E".into(), Some(v) => v.iter().enumerate().map(|(k, i)| format!("{}{}", if unk.contains(&k) { "u" } else { "" }, hexf(i))).collect::<Vec<_>>().join(",") } }
 fn descs(l: &Option<Vec<Vec<u8>>>) -> Option<Vec<PublicKeyCredentialDescriptor>> { descs_u(l, &[]) }
 fn descs_u(l: &Option<Vec<Vec<u8>>>, unk: &[usize]) -> Option<Vec<PublicKeyCredentialDescriptor>> {
-    l.as_ref().map(|v| v.iter().enumerate().map(|(k, i)| PublicKeyCredentialDescriptor { ty: if unk.contains(&k) { PublicKeyCredentialType::Unknown } else { PublicKeyCredentialType::PublicKey }, id: i.clone().into(), transports: None }).collect())
+    l.as_ref().map(|v| v.iter().enumerate().map(|(k, i)| PublicKeyCredentialDescriptor { ty: if unk.contains(&k) { PublicKeyCredentialType::Unknown } else { PublicKeyCredentialType::PublicKey }, id: i.clone().into(), transports: dont_care_transports(i) }).collect())
 }
 fn alg_of(a: i64) -> coset::iana::Algorithm { use coset::iana::EnumI64; coset::iana::Algorithm::from_i64(a).unwrap_or(coset::iana::Algorithm::RS512) }
 
@@ -152,15 +152,21 @@ fn run_generic<S: Inner + 'static>(ctx: &mut Ctx, prop: &str, w: &World, inner: 
                 let Some((of, url)) = origin_fields(&r.org, r.rp.as_deref(), r.allow_localhost) else { ctx.stat("cl.url_parse_error"); continue; };
                 client = client.allows_insecure_localhost(r.allow_localhost);
                 let opts = webauthn::CredentialCreationOptions { public_key: webauthn::PublicKeyCredentialCreationOptions {
-                    rp: webauthn::PublicKeyCredentialRpEntity { id: r.rp.clone(), name: "rp".into() },
-                    user: webauthn::PublicKeyCredentialUserEntity { id: r.user.clone().into(), display_name: "d".into(), name: "n".into() },
+                    // members neither the client nor the authenticator acts on, varied with the challenge / user id
+                    rp: webauthn::PublicKeyCredentialRpEntity { id: r.rp.clone(), name: if r.challenge.first().copied().unwrap_or(0) % 2 == 0 { "rp".into() } else { format!("R\u{e9}lying \u{1f600} {}", "p".repeat(70)) } },
+                    user: webauthn::PublicKeyCredentialUserEntity { id: r.user.clone().into(),
+                        display_name: if r.user.len() % 3 == 0 { "d".into() } else { format!("D\u{e9}{}", "\u{20ac}".repeat(20 + r.user.len())) },
+                        name: if r.user.len() % 3 == 1 { "n".into() } else { format!("account-{}-{}@example.com", hexf(&r.user), "x".repeat(50)) } },
                     challenge: r.challenge.clone().into(),
                     pub_key_cred_params: r.algs.iter().map(|a| PublicKeyCredentialParameters { ty: PublicKeyCredentialType::PublicKey, alg: alg_of(*a) }).collect(),
-                    timeout: None, exclude_credentials: descs(&r.exclude),
+                    timeout: match r.challenge.last().copied().unwrap_or(0) % 4 { 0 => None, 1 => Some(0), 2 => Some(60000), _ => Some(u32::MAX) }, exclude_credentials: descs(&r.exclude),
                     authenticator_selection: r.sel.as_ref().map(|s| AuthenticatorSelectionCriteria { authenticator_attachment: None,
                         resident_key: s.rk.map(|k| match k { Rk::Discouraged => ResidentKeyRequirement::Discouraged, Rk::Preferred => ResidentKeyRequirement::Preferred, Rk::Required => ResidentKeyRequirement::Required }),
                         require_resident_key: s.rrk, user_verification: uvr(s.uv) }),
-                    hints: None, attestation: Default::default(), attestation_formats: None, extensions: ext_real(&r.ext) } };
+                    hints: match r.challenge.len() % 3 { 0 => None, 1 => Some(vec![]), _ => Some(vec![webauthn::PublicKeyCredentialHints::SecurityKey, webauthn::PublicKeyCredentialHints::Hybrid]) },
+                    attestation: match r.user.first().copied().unwrap_or(0) % 4 { 0 => webauthn::AttestationConveyancePreference::None, 1 => webauthn::AttestationConveyancePreference::Indirect, 2 => webauthn::AttestationConveyancePreference::Direct, _ => webauthn::AttestationConveyancePreference::Enterprise },
+                    attestation_formats: match r.user.last().copied().unwrap_or(0) % 3 { 0 => None, 1 => Some(vec![]), _ => Some(vec![webauthn::AttestationStatementFormatIdentifiers::Packed, webauthn::AttestationStatementFormatIdentifiers::None]) },
+                    extensions: ext_real(&r.ext) } };
                 let res = guarded(|| {
                     let link = Url::parse("https://example.com/.well-known/assetlinks.json").unwrap();
                     let origin: Origin = match (&r.org, &url) { (Org::Web(_), Some(u)) => Origin::from(u), (Org::Android(h), _) => Origin::Android(UnverifiedAssetLink::new("com.example.app", FP, h.as_str(), link).unwrap()), _ => unreachable!() };
@@ -198,8 +204,13 @@ fn run_generic<S: Inner + 'static>(ctx: &mut Ctx, prop: &str, w: &World, inner: 
                 let Some((of, url)) = origin_fields(&a.org, a.rp.as_deref(), a.allow_localhost) else { ctx.stat("cl.url_parse_error"); continue; };
                 client = client.allows_insecure_localhost(a.allow_localhost);
                 let opts = webauthn::CredentialRequestOptions { public_key: webauthn::PublicKeyCredentialRequestOptions {
-                    challenge: a.challenge.clone().into(), timeout: None, rp_id: a.rp.clone(), allow_credentials: descs_u(&a.allow, &a.unk),
-                    user_verification: uvr(a.uv), hints: None, attestation: Default::default(), attestation_formats: None, extensions: ext_real(&a.ext) } };
+                    challenge: a.challenge.clone().into(), timeout: match a.challenge.last().copied().unwrap_or(0) % 4 { 0 => None, 1 => Some(0), 2 => Some(60000), _ => Some(u32::MAX) },
+                    rp_id: a.rp.clone(), allow_credentials: descs_u(&a.allow, &a.unk),
+                    user_verification: uvr(a.uv),
+                    hints: match a.challenge.len() % 3 { 0 => None, 1 => Some(vec![]), _ => Some(vec![webauthn::PublicKeyCredentialHints::ClientDevice]) },
+                    attestation: match a.challenge.first().copied().unwrap_or(0) % 3 { 0 => webauthn::AttestationConveyancePreference::None, 1 => webauthn::AttestationConveyancePreference::Direct, _ => webauthn::AttestationConveyancePreference::Enterprise },
+                    attestation_formats: if a.challenge.first().copied().unwrap_or(0) % 2 == 0 { None } else { Some(vec![webauthn::AttestationStatementFormatIdentifiers::Tpm]) },
+                    extensions: ext_real(&a.ext) } };
                 let res = guarded(|| {
                     let link = Url::parse("https://example.com/.well-known/assetlinks.json").unwrap();
                     let origin: Origin = match (&a.org, &url) { (Org::Web(_), Some(u)) => Origin::from(u), (Org::Android(h), _) => Origin::Android(UnverifiedAssetLink::new("com.example.app", FP, h.as_str(), link).unwrap()), _ => unreachable!() };
